@@ -77,8 +77,12 @@ def _verify_class(w: World) -> bool:
     if len(tests) != 1:
         return False
     t = tests[0]
-    txt = ast.unparse(t.ast).replace(' ', '')
-    ok = txt == f'bytes_to_bool({fi.params[1]}.get())'
+    kinds = w.kinds(fi)
+    lv = kinds.of(t.ast, t).leaves()
+    # the guard condition is the boolean decode of the popped item (directly or through a local)
+    ok = bool(lv) and all(l.tag == 'call' and l.name == 'bytes_to_bool' and len(l.args) == 1 and
+                          all(x.tag == 'stack_item' and x.how == 'get' and kinds.path(x.stack) == fi.params[1]
+                              for x in l.args[0].leaves()) for l in lv)
     for s, lab in t.succ:
         if lab is False and cfg.raise_class_of(s) != 'ScriptExecutionError':
             ok = False
